@@ -58,9 +58,10 @@ def check_run(R: Run, variant: str, kinds, workers, gate: bool, obs: Dict[str, A
     outs = obs["outcomes"]
     sig = f"{variant}|{tag}|" + ("raised" if any(o not in ("ok",) for o in outs) else "ok")
     R.corr(line, lambda: obs["text"], sig=sig)
-    if not oracle:
-        return
     case = {"variant": variant, "kinds": kinds, "workers": workers, "gate": gate, "schedule": obs["fine"]}
+    if not oracle:
+        pre_delete_oracle(R, variant, case, obs)
+        return
     R.oracle(not obs["deadlock"] and obs["lock"] is None and all(o != "running" for o in outs),
              f"{variant}:deadlock-or-lock-left-held", case,
              f"threads {outs}, lock holder {obs['lock']} after a complete schedule", trivial=True)
@@ -85,6 +86,30 @@ def check_run(R: Run, variant: str, kinds, workers, gate: bool, obs: Dict[str, A
              f"uploads {obs['uploads']} results {obs['results']}", trivial=True)
 
 
+def pre_delete_oracle(R: Run, variant: str, case, obs):
+    """Cluster variant with a finalise racing the first writes: the property is claimed (and
+    proved, `dist_once`) up to the moment the finalise deletes the shared variable; evaluate
+    it on that prefix of the run."""
+    labels = obs["labels"]
+    idx = next((i for i, l in enumerate(labels) if l.endswith(":vdel")), len(labels))
+    is_call = [l.split(":")[1] in ("create", "upload", "complete") for l in labels]
+    ncalls_pre = sum(1 for i in range(idx) if is_call[i])
+    calls_pre = obs["calls"][:ncalls_pre]
+    ncreate_pre = sum(1 for c in calls_pre if c.startswith("create="))
+    ids_pre = [c.split("=", 1)[1] for c in calls_pre]
+    last = {}
+    for i, l in enumerate(labels):
+        last[int(l.split(":")[0])] = i
+    failed_pre = [t for t, o in enumerate(obs["outcomes"]) if o not in ("ok", "running") and last.get(t, -1) < idx]
+    R.oracle(not failed_pre, f"{variant}:write-fails-before-variable-deleted", case,
+             f"threads {failed_pre} raised before the finalise deleted the variable: {obs['outcomes']}")
+    R.oracle(ncreate_pre <= 1 and (ncreate_pre == 1 or not calls_pre),
+             f"{variant}:not-exactly-one-upload-before-variable-deleted", case,
+             f"calls before the deletion: {calls_pre}")
+    R.oracle(len(set(ids_pre)) <= 1, f"{variant}:call-under-other-upload-id-before-variable-deleted", case,
+             f"calls before the deletion: {calls_pre}")
+
+
 def schedules(R: Run):
     from . import c18_sched as S
 
@@ -94,7 +119,10 @@ def schedules(R: Run):
     C2 = frozenset({"acq", "create", "upload", "complete", "vget"})
 
     def exhaustive(variant, kinds, workers, coarse, tag, gate=False, oracle=True):
-        obs = S.enumerate_all(kinds, workers, coarse, procs=procs, gate_fin=gate)
+        obs, truncated = S.enumerate_all(kinds, workers, coarse, procs=procs, gate_fin=gate)
+        if truncated:
+            R.notes.append(f"enumeration truncated for {variant} {kinds} {workers} ({tag}): more interleavings "
+                           "than the unchanged protocol has")
         for o in obs:
             check_run(R, variant, kinds, workers, gate, o, tag, oracle)
         R.count(f"schedules:{variant}:{tag}:{'+'.join(kinds)}:{workers}", len(obs))
@@ -222,8 +250,6 @@ def sink_cases(R: Run, root: Path):
             for order in (nums, nums[::-1]):
                 for keep in (False, True):
                     k += 1
-                    if R.quick and n == 4 and k % 3:
-                        continue
                     sink_case(R, root, writes, list(order), keep, ("none", "dir", "nested")[k % 3],
                               "all-parts" + ("|empty-part" if 0 in sv else ""))
     # random: 1..6 parts, arbitrary part numbers, overwrites, permutations, subsets, duplicates, unknown parts
@@ -283,13 +309,23 @@ def limit_cases(R: Run, root: Path):
         names = KW + [a for a in accs if a not in KW]
         return list_s([f"{a}={getattr(obj, a)}" for a in names])
 
+    # two-sided: the limits of the S3 multipart API (5 MiB .. 5 GiB per part, part numbers 1 .. 10000) and
+    # the documented defaults of the file sink, independent of the Lean model
+    s3_doc = {"min_write_sz": 5 * 1024 * 1024, "max_write_sz": 5 * 1024 ** 3, "min_part": 1, "max_part": 10000}
+    sink_doc = {"min_write_sz": 4096, "max_write_sz": 5 * 1024 ** 3, "min_part": 1, "max_part": 10000}
     mpu = _s3.MultiPartUpload("b", "k")
     for nm, obj in (("MultiPartUpload", mpu), ("DelayedS3Writer", _s3.DelayedS3Writer(mpu, {}))):
         R.corr("c18 limits s3", lambda: fmt(obj), sig="limits|s3")
         R.oracle(obj.max_write_sz > obj.min_write_sz and obj.max_part > obj.min_part, "limits:s3-max-not-above-min",
                  {"writer": nm}, fmt(obj))
+        got = {a: getattr(obj, a) for a in KW}
+        R.oracle(got == s3_doc, "limits:s3-limit-differs-from-s3-api", {"writer": nm},
+                 f"{nm} reports {got}, S3 multipart limits are {s3_doc}")
 
     dflt = _mpu_fs.MPUFileSink(root / "x.bin")
+    got_d = {a: getattr(dflt, a) for a in KW}
+    R.oracle(got_d == sink_doc, "limits:sink-default-differs", {"kw": {}},
+             f"MPUFileSink(dst) reports {got_d}, documented defaults {sink_doc}")
     R.oracle(dflt.max_write_sz > dflt.min_write_sz and dflt.max_part > dflt.min_part,
              "limits:sink-default-max-not-above-min", {}, fmt(dflt))
     values = [
@@ -374,7 +410,8 @@ def replay(R: Run, rec) -> int:
         except Exception as e:  # pylint: disable=broad-except
             print("model: unavailable:", e)
         probe = Run(R.prop, R.tier, R.seed)
-        check_run(probe, case["variant"], case["kinds"], case["workers"], case.get("gate", False), obs, "replay")
+        check_run(probe, case["variant"], case["kinds"], case["workers"], case.get("gate", False), obs, "replay",
+                  oracle="before-variable-deleted" not in key)
         for f in probe.oracle_failures:
             print("FAILS:", f["key"], "-", f["what"])
         return 1 if probe.oracle_failures else 0
@@ -388,6 +425,18 @@ def replay(R: Run, rec) -> int:
             for f in probe.oracle_failures:
                 print("FAILS:", f["key"], "-", f["what"])
             return 1 if probe.oracle_failures else 0
+        finally:
+            shutil.rmtree(root, ignore_errors=True)
+    if key in ("limits:s3-limit-differs-from-s3-api", "limits:sink-default-differs", "limits:s3-max-not-above-min",
+               "limits:sink-default-max-not-above-min", "limits:writer-lacks-accessor"):
+        root = Path(tempfile.mkdtemp(prefix="c18-"))
+        try:
+            probe = Run(R.prop, R.tier, R.seed)
+            limit_cases(probe, root)
+            hits = [f for f in probe.oracle_failures if f["key"] == key]
+            for f in hits:
+                print("FAILS:", f["key"], "-", f["what"])
+            return 1 if hits else 0
         finally:
             shutil.rmtree(root, ignore_errors=True)
     if key.startswith("limits:"):
